@@ -44,6 +44,9 @@ def configs(tier, seed):
                         continue
                     for ps in shapes:
                         out.append(dict(h="table", op=lt, key=f"table/{lt}/grid={grid}/n={n}/{ia}{npts}/prm={ps}", lt=lt, grid=grid, n=n, inflow_at=ia, npts=npts, ps=ps))
+                    if grid == "uneven" and npts == 1 and ia == "middle" and len(REAL[lt]) == 2:
+                        for ps in ("scalar", "rt"):
+                            out.append(dict(h="table", op=lt, key=f"table/{lt}/grid={grid}/n={n}/{ia}{npts}/prm={ps}/via_set_prms_reversed_keywords", lt=lt, grid=grid, n=n, inflow_at=ia, npts=npts, ps=ps, via_set_prms=True))
                     if grid == "uneven" and npts in (1, 3) and ia == "middle":
                         # the same table after another model of the same class was evaluated in this process
                         # (other parameters, another grid with the same end points and length): no state may leak
@@ -155,7 +158,12 @@ def run(cfg, w):
             dt, b = dsm.oracle_bounds(y)
         dims = dsm.make_dims(y, {"r": 2})
         kw, look = _params(w, cfg, dims, n)
-        model = getattr(lm, lt)(dims=dims, inflow_at=cfg["inflow_at"], n_pts_per_interval=cfg["npts"], **kw)
+        if cfg.get("via_set_prms"):
+            # parameters handed over afterwards, by keyword, last-declared first (keywords bind by name, not by position)
+            model = getattr(lm, lt)(dims=dims, inflow_at=cfg["inflow_at"], n_pts_per_interval=cfg["npts"])
+            model.set_prms(**dict(reversed(list(kw.items()))))
+        else:
+            model = getattr(lm, lt)(dims=dims, inflow_at=cfg["inflow_at"], n_pts_per_interval=cfg["npts"], **kw)
         sf = model.sf
         w.ob("sf_shape", np.shape(sf) == (n, n, 2))
         if np.shape(sf) != (n, n, 2):
